@@ -231,7 +231,7 @@ for _ty in ('usize', 'isize', 'u8', 'u32', 'u64'):
     TABLE[b + 'checked_sub'] = lambda I, st, fid, bi, a, c, t: ('app', 'checked_sub', a[0], a[1])
     TABLE[b + 'checked_mul'] = lambda I, st, fid, bi, a, c, t: ('app', 'checked_mul', a[0], a[1])
     TABLE[b + 'wrapping_sub'] = _bin('wsub')
-    TABLE[b + 'wrapping_add'] = _bin('add')
+    TABLE[b + 'wrapping_add'] = _bin('wadd')
     TABLE[b + 'wrapping_mul'] = _bin('mul')
     TABLE[b + 'saturating_sub'] = _bin('satsub')
     TABLE[b + 'saturating_add'] = _bin('satadd')
@@ -318,6 +318,8 @@ def _l_for_value(I, st, fid, bi, a, c, t):
         vv = I.read(st, v[1]) if v[0] == 'addr' else v
         if vv[0] == 'agg' and vv[1] == 'slice':
             n = field_of(vv, 'len')
+        # the slice exists in memory, so len * size_of::<T>() <= isize::MAX
+        st.facts.add(('nooverflow', 'mul', n, I.size_of(ety)))
         return ('layout', app('mul', n, I.size_of(ety)), I.align_of(ety))
     return ('layout', I.size_of(ty), I.align_of(ty))
 
